@@ -59,6 +59,9 @@ class Monitor:
         self._depth = 0
         self.max_depth = 2
         self.notes = Counter()  # free-form counters (branch tallies etc.)
+        # when a list: results of outermost hooked calls (the objects handed to the driver) are appended, so
+        # that the driver can modify them in place after the case and run the case again (rv.core, "echo")
+        self.collect = None
 
     # ------------------------------------------------------------------ events
     def reset_guard(self):
@@ -147,6 +150,8 @@ class Monitor:
                 raise
             mon._depth -= 1
             mon._post(name, post, call)
+            if mon.collect is not None and mon._depth == 0 and call.result is not None and len(mon.collect) < 5000:
+                mon.collect.append(call.result)
             return call.result
 
         wrapper.__rv_orig__ = orig
